@@ -186,7 +186,9 @@ def check_case(ctx, line, meta, hout, dout, iout, stats):
     if same != "in-same":
         probs.append(("prop", "prior-modified", "the prior passed in was modified"))
     if [x for x in cw] != [x for x in outw]:
-        probs.append(("corr", "weights-written", "weights of the output mixture changed (model: not written)"))
+        # not part of C01 (the property does not speak about the weights of the output mixture):
+        # recorded, never an alarm
+        stats["note_weights_written"] = stats.get("note_weights_written", 0) + 1
     if likflag != "lik" or len(liks) != k:
         probs.append(("prop", "likelihood-missing", "likelihood not reported after a successful correction"))
     for c in range(k):
@@ -295,7 +297,7 @@ def run(ctx):
         if hline.startswith("kfcs"):
             pre, outs = split_seq_output(h, len(slines))
             if pre is not None and pre != "noprelik":
-                prop_bad.append(("likelihood-before-correction", "likelihood reported before any correction was made", hline, h))
+                stats["note_likelihood_before_correction"] = stats.get("note_likelihood_before_correction", 0) + 1   # outside C01: recorded only
             if len(outs) != len(slines):
                 outs = (outs + ["crash:short-output"] * len(slines))[:len(slines)]
         else:
